@@ -102,12 +102,33 @@ Theorem C06_script_states_reachable : forall l ss,
 Proof. exact exec_ops_reach. Qed.
 Print Assumptions C06_script_states_reachable.
 
-(* The boolean monitor on observed registries is the statement of C06_registry_is_newest_live
-   with the observed task states in place of the model's. *)
-Theorem C06_monitor_is_property : forall s ob,
-  registry_ok s ob = true <-> obs_registry_spec s ob.
-Proof. exact registry_ok_spec. Qed.
+(* The boolean monitor, on arbitrary observations of one operation, is exactly:
+   - the observed registry holds, per endpoint id, the registered-and-not-ended connections,
+     newest first (C06_registry_is_newest_live with the observed task states);
+   - a peer-gone notice for X is among the frames a client received in the operation only
+     if X has no entry after it;
+   - if X had an entry before the operation and has none after it, then the active
+     connection of every endpoint X had sent to, when it is observed running and the queue
+     capacity is at least 1, received exactly one peer-gone notice for X in the operation;
+   - if a connection that was not registered before is observed in front of the previously
+     active connection a, then a (observed running, capacity >= 1) received the took-over
+     notice in the operation;
+   - if the previously active connection c is gone from the observed entry and the most
+     recently displaced connection p is observed active, then p (observed running,
+     capacity >= 1) received the healthy notice in the operation. *)
+Theorem C06_monitor_is_property : forall s0 s1 ob,
+  step_ok s0 s1 ob = true <->
+  obs_registry_spec s1 ob /\ obs_gone_only_after_last s1 ob /\ obs_gone_delivered s0 s1 ob /\
+  obs_took_over_told s0 s1 ob /\ obs_healthy_told s0 s1 ob.
+Proof. exact step_ok_spec. Qed.
 Print Assumptions C06_monitor_is_property.
+
+(* Between two script operations every running connection has drained its queues and no
+   peer-gone notice is pending (what makes "received in this operation" meaningful). *)
+Theorem C06_script_invariant : forall ss o,
+  SInv ss -> op_result ss (fst (exec_op ss o)) /\ SInv (fst (exec_op ss o)).
+Proof. exact exec_op_mid. Qed.
+Print Assumptions C06_script_invariant.
 
 Theorem C06_model_satisfies_monitor : forall i, monitor i (model i) = true.
 Proof. exact model_monitor. Qed.
